@@ -1644,7 +1644,9 @@ func (r *stack) lock() {
 			sc, _ := r.config()
 			_now := now()
 			sc.ldr = &_now
+			verifPoint("lock.want", r)
 			mutex.Lock()
+			verifPoint("lock.held", r)
 		}
 	}
 }
@@ -1658,6 +1660,7 @@ func (r *stack) unlock() {
 	if r.canMutex() {
 		if mutex, found := r.mutex(); found {
 			mutex.Unlock()
+			verifPoint("lock.released", r)
 			sc, _ := r.config()
 			sc.ldr = nil
 		}
